@@ -130,7 +130,7 @@ def schedule_power_human(st: int, power: int) -> int:
     return power
 
 
-def decode(cls: str, b: bytes, scale=None, labels=None):
+def decode(cls: str, b: bytes, scale=None, labels=None, enum_signed=False):
     """Reference value for one sensor of class `cls` from its own bytes `b` (len == WIDTH[cls])."""
     if cls in ("Voltage", "Current"):
         v = u(b)
@@ -190,9 +190,11 @@ def decode(cls: str, b: bytes, scale=None, labels=None):
         except ValueError:
             return NOVALUE
     if cls in ("Enum", "EnumH"):
-        return labels.get(s(b[0:1]))
+        # label tables are keyed by the byte value 0..255 (ENERGY_MODES documents a code 128); enum_signed gives the
+        # lookup of the byte read as a signed number instead (what a sibling 'Byte' code sensor reports)
+        return labels.get(s(b[0:1]) if enum_signed else u(b[0:1]))
     if cls == "EnumL":
-        return labels.get(s(b[1:2]))
+        return labels.get(s(b[1:2]) if enum_signed else u(b[1:2]))
     if cls == "Enum2":
         v = u(b)
         return labels.get(0 if v == 0xFFFF else v)
